@@ -409,7 +409,10 @@ class Session:
                     if frag:
                         self.printed.append(frag)
                         self.flushed_at_stop = True
-                final = self._expected_frame(final=True)
+                # stop() draws the display once more, in full ("visible") - except a transient display, which is erased
+                # next and therefore keeps its own way of fitting the screen
+                going = self.cfg["transient"] or self.kind == "status"
+                final = self._expected_frame(final=not going)
                 self.heights.add(len(final))
                 if self.cfg["transient"] or self.kind == "status":
                     if len(final) > self.H:
@@ -496,7 +499,8 @@ class Session:
                 # Console.line() writes its blank lines without passing the live display's render hook
                 kind = "blank-lines-of-console.line-written-below-the-live-frame"
                 self.exempt = True
-            elif getattr(self, "full_height_transient_stop", False) and len(got) > len(want) and all(w in got for w in want):
+            elif getattr(self, "full_height_transient_stop", False) and got[:len(want)] == want and sum(1 for l in got[len(want):] if l.strip()) == 1:
+                # (exactly ONE line stays behind: the frame's first, scrolled out by the line end stop() adds)
                 kind = "remnant-after-transient-stop-of-screen-filling-frame"
                 self.exempt = True      # the scrolled-off line stays: later comparisons would only repeat this
             elif len(got) > len(want) and all(w in got for w in want):
